@@ -69,7 +69,9 @@ CLAIMED['C09'] = dict(
          'opt_must, pad, pad_opt, partial, rep, rep_max, rep_min, rep_min_max, rep_opt, star_must, strict, star_strict, star_partial, until, separated_seq, if_then, rematch) is '
          'instantiated over opaque sub-rules (arities 1-3, bounds 0..4, both rewind modes) and compared with the documented expansion for every answer history up to the question '
          'bound: same result, same consumed prefix, same raised rule. Sub-rules that consume before failing, nullable and raising sub-rules are all produced by the oracle - the '
-         'cases the unit tests never build. The doc clauses are re-checked against doc/Rule-Reference.md each run. Byte-level rules of the property are decided by the language engine (see notes).',
+         'cases the unit tests never build. The doc clauses are re-checked against doc/Rule-Reference.md each run. '
+         'Byte-level rules of the property (eolf, keyword, identifier, shebang, string, two, three, forty_two, ranges, everything, rep_string, rep_one_min_max): the hand-written matchers are compared exactly, '
+         'over all inputs of a 9-byte window and the five end-of-line policies, with the formal meaning of their rule type (exact set evaluation); the type graph of each convenience rule is compared with the type graph of its documented expansion (normal form or automata).',
     ref='4.6, 5/C09')
 CLAIMED['C01'] = dict(
     category='model_checking',
